@@ -20,6 +20,7 @@ func init() {
 			{"C08.sole-writer", "no other code writes to a chunk's final name", 5, c08SoleWriter},
 			{"C08.prefix-agree", "prune removes abandoned temp files by the prefix StoreChunk uses, before the extension filter", 2, c08Prefix},
 			{"C08.extract", "temp-file extract: rename only after successful assembly; cancellation is never success", 5, c08Extract},
+			{"C08.in-place-by-flag-only", "the destination is assembled in place only when --in-place was given", 2, c08InPlaceByFlagOnly},
 			{"C08.resume", "in-place re-run keeps only ranges that hash to their chunk id", 3, c01WriteChunk},
 		},
 	})
@@ -53,7 +54,9 @@ func c08Typestate(c *Ctx) {
 		return len(leaves(v)) > 0
 	}
 	isTmpName := func(v ssa.Value) bool {
-		return hasOrigin(v, func(o string) bool { return strings.Contains(o, "tempfile.File).Name#0") || strings.Contains(o, "os.File).Name#0") })
+		return hasOrigin(v, func(o string) bool {
+			return strings.Contains(o, "tempfile.File).Name#0") || strings.Contains(o, "os.File).Name#0")
+		})
 	}
 	prefix := c.constVal("tmpChunkPrefix")
 	var bad []string
@@ -283,4 +286,44 @@ func c08Extract(c *Ctx) {
 			c.ok("cmd.runExtract:errors", fn.Pos(), "%d assembly call site(s); failures reach the CLI", sites)
 		}
 	}
+}
+
+// c08InPlaceByFlagOnly: the destination is written in place only when the user asked for it
+// (--in-place); otherwise assembly goes to a temp file that is renamed.  The call of
+// writeInplace lies behind the true edge of a test of opt.inPlace, and nothing but the flag
+// parser writes that field.
+func c08InPlaceByFlagOnly(c *Ctx) {
+	fn := c.mustFn("cmd.runExtract")
+	if fn == nil {
+		return
+	}
+	isFlag := func(o string) bool { return o == "field:extractOptions.inPlace" }
+	for _, call := range calls(fn, named("cmd.writeInplace")) {
+		acc := func(iff *ssa.If) (bool, bool) {
+			if !onlyOrigins(iff.Cond, isFlag) {
+				return false, false
+			}
+			if u, ok := iff.Cond.(*ssa.UnOp); ok && u.Op == token.NOT {
+				return false, true
+			}
+			return true, false
+		}
+		okG, _ := guarded(fn, call, acc)
+		c.verdict(okG, "cmd.runExtract:writeInplace", call.Pos(), "in-place assembly only behind the true edge of opt.inPlace",
+			"writeInplace (assembly directly into the destination) is reachable without opt.inPlace being set: an interrupted extract leaves a partial file under the destination name")
+	}
+	stores := 0
+	for _, f := range c.Funcs {
+		instrs(f, func(_ *ssa.BasicBlock, _ int, ins ssa.Instruction) {
+			st, ok := ins.(*ssa.Store)
+			if !ok {
+				return
+			}
+			if fa, ok := st.Addr.(*ssa.FieldAddr); ok && fieldOf(fa) == "extractOptions.inPlace" {
+				stores++
+				c.bad(fnKey(f)+":inPlace-store", st.Pos(), "opt.inPlace is assigned by the program (only the --in-place flag may set it): extraction may write directly into the destination although the user did not ask for it")
+			}
+		})
+	}
+	c.ok("extractOptions.inPlace:flag-only", 0, "%d program stores to opt.inPlace", stores)
 }
